@@ -77,3 +77,17 @@ func (p *PluginState) VerifClose() error {
 	}
 	return p.leasedb.Close()
 }
+
+// VerifAge makes every lease look d older, in memory and in the lease database alike: the
+// equivalent of d of wall-clock time passing (the plugin reads the clock directly, so the
+// model checker cannot advance it any other way).
+func (p *PluginState) VerifAge(d time.Duration) error {
+	p.Lock()
+	defer p.Unlock()
+	secs := int(d / time.Second)
+	for _, r := range p.Recordsv4 {
+		r.expires -= secs
+	}
+	_, err := p.leasedb.Exec("update leases4 set expiry = expiry - ?", secs)
+	return err
+}
